@@ -113,6 +113,9 @@ func AcceptorSession(cfg Cfg, h simplefixgo.AcceptorHandler, cs session.CounterS
 		&session.LogonSettings{LogonTimeout: 30 * time.Second, CloseTimeout: closeTimeout,
 			HeartBtLimits: &session.IntLimits{Min: cfg.HBMin, Max: cfg.HBMax}},
 		func(req *session.LogonSettings) error {
+			if cfg.LogonCbNs > 0 {
+				time.Sleep(time.Duration(cfg.LogonCbNs)) // the application's credential check takes time
+			}
 			if Approves(cfg.Approve, req.Username, req.Password) {
 				return nil
 			}
